@@ -15,7 +15,7 @@
 (***************************************************************************)
 EXTENDS TapeVM, Json, IOUtils
 
-VARIABLES vm, l, tid, verdict
+VARIABLES vm, l, tid, verdict, nres
 
 TraceLog == JsonDeserialize(IOEnv.TRACE_FILE)
 
@@ -89,27 +89,40 @@ TraceInit ==
     /\ vm = InitVM(CfgOf(TraceLog[tid].cfg))
     /\ l = 1
     /\ verdict = "open"
+    /\ nres = 0
+
+\* Resync: after a disagreement at an instruction that started no sub-tape, the
+\* implementation's logged outcome is adopted so that the REST of the trace is still
+\* examined (a named action, counted; at most MaxResync per trace).  The disagreement
+\* itself has already been reported.
+MaxResync == 3
+CanResync(v, ev) == /\ ev.k = "op" /\ StepKind(v) = "exec" /\ ev.d = Len(v.frames) /\ nres < MaxResync
+Resync(v, ev) ==
+    LET a == Adopt(v, ev)
+        b == [a EXCEPT !.ret = ev.ret, !.obs.plug = ev.plug, !.r = <<>>, !.p = <<>>, !.x = <<>>]
+    IN IF ev.flc THEN [b EXCEPT !.fheap[TT(b).fid] = FnOf(ev.fl)] ELSE b
 
 TraceNext ==
     /\ verdict = "open"
     /\ LET T == TraceLog[tid].ev IN
        IF l > Len(T)
        THEN /\ verdict' = IF vm.status # "run" THEN "ok" ELSE "short"
-            /\ PrintT(ToJson([tid |-> tid, ok |-> vm.status # "run", step |-> l,
+            /\ PrintT(ToJson([tid |-> tid, ok |-> vm.status # "run", step |-> l, final |-> TRUE,
                               failed |-> IF vm.status # "run" THEN "" ELSE "short",
-                              id |-> TraceLog[tid].id]))
-            /\ UNCHANGED <<vm, l, tid>>
+                              id |-> TraceLog[tid].id, resyncs |-> nres]))
+            /\ UNCHANGED <<vm, l, tid, nres>>
        ELSE LET ev == T[l]
                 w == Expected(vm, ev)
                 F == Failing(vm, w, ev)
             IN IF F = {}
-               THEN /\ vm' = w /\ l' = l + 1 /\ UNCHANGED <<tid, verdict>>
-               ELSE /\ verdict' = "rejected"
-                    /\ PrintT(ToJson([tid |-> tid, ok |-> FALSE, step |-> l, failed |-> SetStr(F),
-                                      id |-> TraceLog[tid].id, expected |-> Proj(w)]))
-                    /\ UNCHANGED <<vm, l, tid>>
+               THEN /\ vm' = w /\ l' = l + 1 /\ UNCHANGED <<tid, verdict, nres>>
+               ELSE /\ PrintT(ToJson([tid |-> tid, ok |-> FALSE, step |-> l, failed |-> SetStr(F), final |-> ~CanResync(vm, ev),
+                                      id |-> TraceLog[tid].id, expected |-> Proj(w), resyncs |-> nres]))
+                    /\ IF CanResync(vm, ev)
+                       THEN /\ vm' = Resync(vm, ev) /\ l' = l + 1 /\ nres' = nres + 1 /\ UNCHANGED <<tid, verdict>>
+                       ELSE /\ verdict' = "rejected" /\ UNCHANGED <<vm, l, tid, nres>>
 
-TraceSpec == TraceInit /\ [][TraceNext]_<<vm, l, tid, verdict>>
+TraceSpec == TraceInit /\ [][TraceNext]_<<vm, l, tid, verdict, nres>>
 
 \* ---- invariants of TapeVM, evaluated on every state of every trace ------
 InvStackBounded == StackBounded(vm)
